@@ -99,7 +99,7 @@ func TestC07(t *testing.T) {
 	if evThorough() {
 		depth = 6
 	}
-	check(rec, "trace-random", scale(15000, 300000), func(rt *rapid.T) {
+	check(rec, "trace-random", scale(15000, 6000000), func(rt *rapid.T) {
 		c, labels := genC07(rt, depth)
 		var ls []string
 		for l := range labels {
